@@ -1,6 +1,7 @@
 package harness
 
 import (
+	"fmt"
 	"sort"
 	"strconv"
 	"strings"
@@ -17,6 +18,105 @@ type TFWrite struct {
 	Unset  bool   `json:"unset,omitempty"`
 	Val    V      `json:"val"`
 	Native bool   `json:"native,omitempty"` // pass containers as native Go maps/slices
+	// Ref: the value is the container that is at this path of the tree at the time of the write (moving or
+	// linking a subtree: the same instance is then reachable at two places until one is unset);
+	// Wrap 1/2: the value is a new list / object holding that container
+	Ref  string `json:"ref,omitempty"`
+	Wrap int    `json:"wrap,omitempty"`
+}
+
+// tReaches reports whether b is a or reachable from a.
+func tReaches(a, b *tnode) bool {
+	if a == b {
+		return true
+	}
+	for _, e := range a.elems {
+		if tReaches(e, b) {
+			return true
+		}
+	}
+	for _, e := range a.fields {
+		if tReaches(e, b) {
+			return true
+		}
+	}
+	return false
+}
+
+// containerPaths lists an addressable path for every container below the root (pre-order, keys sorted).
+func containerPaths(n *tnode, prefix []tfSeg, out *[][]tfSeg, nodes *[]*tnode, budget *int) {
+	visit := func(seg tfSeg, child *tnode) {
+		if *budget <= 0 || (child.k != KList && child.k != KObject) {
+			return
+		}
+		*budget--
+		p := append(append([]tfSeg{}, prefix...), seg)
+		*out = append(*out, p)
+		*nodes = append(*nodes, child)
+		if len(p) < 6 {
+			containerPaths(child, p, out, nodes, budget)
+		}
+	}
+	switch n.k {
+	case KList:
+		for i, e := range n.elems {
+			visit(tfSeg{'#', strconv.Itoa(i)}, e)
+		}
+	case KObject:
+		keys := make([]string, 0, len(n.fields))
+		for k := range n.fields {
+			if k != "" && !strings.ContainsAny(k, ".#") {
+				keys = append(keys, k)
+			}
+		}
+		sort.Strings(keys)
+		for _, k := range keys {
+			visit(tfSeg{'.', k}, n.fields[k])
+		}
+	}
+}
+
+// nodeAt resolves a parsed path in the model (nil if it does not resolve).
+func nodeAt(root *tnode, segs []tfSeg) *tnode {
+	cur := root
+	for _, sg := range segs {
+		if (cur.k == KObject) != (sg.sigil == '.') || (cur.k != KObject && cur.k != KList) {
+			return nil
+		}
+		child, _ := slotOf(cur, sg)
+		if child == nil {
+			return nil
+		}
+		cur = child
+	}
+	return cur
+}
+
+// wouldCycle: storing val at segs would make val reachable from itself (a container resolved along the path
+// - the one that will hold the value included - is val or lies inside val).
+func wouldCycle(root *tnode, segs []tfSeg, val *tnode) bool {
+	cur := root
+	for i, sg := range segs {
+		if tReaches(val, cur) {
+			return true
+		}
+		if i == len(segs)-1 {
+			break
+		}
+		if (cur.k == KObject) != (sg.sigil == '.') {
+			return false // the rest of the path is created afresh
+		}
+		child, _ := slotOf(cur, sg)
+		need := KObject
+		if segs[i+1].sigil == '#' {
+			need = KList
+		}
+		if child == nil || child.k != need {
+			return false
+		}
+		cur = child
+	}
+	return false
 }
 
 type C11Case struct {
@@ -450,6 +550,34 @@ func GenC11(t *rapid.T) *C11Case {
 		unset := oneIn(t, 4, "unset")
 		segs := genWritePath(t, model, unset)
 		w := TFWrite{Path: joinTF(segs), Unset: unset}
+		if !unset && oneIn(t, 6, "refvalue") {
+			// the value is a container that is already in the tree (or a new container holding it)
+			var paths [][]tfSeg
+			var nodes []*tnode
+			budget := 40
+			containerPaths(model, nil, &paths, &nodes, &budget)
+			if len(paths) > 0 {
+				k := drawIdx(t, len(paths), "refnode")
+				x := nodes[k]
+				if oneIn(t, 3, "ownslot") {
+					segs = paths[k] // written over its own slot (only meaningful wrapped)
+					w.Path = joinTF(segs)
+				}
+				if !wouldCycle(model, segs, x) {
+					w.Ref, w.Wrap = joinTF(paths[k]), drawInt(t, 0, 2, "wrap")
+					val := x
+					switch w.Wrap {
+					case 1:
+						val = &tnode{k: KList, elems: []*tnode{x}}
+					case 2:
+						val = &tnode{k: KObject, fields: map[string]*tnode{"w": x}}
+					}
+					refSet(model, segs, val, nil)
+					c.Writes = append(c.Writes, w)
+					continue
+				}
+			}
+		}
 		if unset {
 			refUnset(model, segs)
 		} else {
@@ -532,6 +660,7 @@ func CheckC11(c *C11Case, st *Stats) error {
 		for i := range cc.Writes {
 			var ok2 bool
 			cc.Writes[i].Path = latin1(cc.Writes[i].Path)
+			cc.Writes[i].Ref = latin1(cc.Writes[i].Ref)
 			cc.Writes[i].Val, ok2 = cc.Writes[i].Val.Latin1Keys()
 			ok = ok && ok2
 			invalid = invalid || !utf8.ValidString(cc.Writes[i].Path)
@@ -597,7 +726,28 @@ func CheckC11(c *C11Case, st *Stats) error {
 		// SetTF
 		var arg any
 		valNode := tFromV(w.Val)
-		if w.Native {
+		if w.Ref != "" {
+			rsegs, ok := parseTF(w.Ref)
+			x := (*tnode)(nil)
+			if ok {
+				x = nodeAt(model, rsegs)
+			}
+			if x == nil || x.impl == nil || (x.k != KList && x.k != KObject) || wouldCycle(model, segs, x) {
+				st.Count("skipped.ref_not_applicable")
+				continue
+			}
+			valNode, arg = x, x.impl
+			switch w.Wrap {
+			case 1:
+				arg = at.NewList(x.impl)
+				valNode = &tnode{k: KList, elems: []*tnode{x}, impl: arg}
+			case 2:
+				arg = at.NewObject("w", x.impl)
+				valNode = &tnode{k: KObject, fields: map[string]*tnode{"w": x}, impl: arg}
+			}
+			everSeen[arg] = true
+			st.Count(fmt.Sprintf("value.existing_container.wrap%d", w.Wrap))
+		} else if w.Native {
 			arg = Native(w.Val)
 			st.Count("value.native")
 		} else {
@@ -639,7 +789,7 @@ func CheckC11(c *C11Case, st *Stats) error {
 		if pv, panicked := catch(func() { got = getTF(root, w.Path) }); panicked {
 			return errf("write %d: GetTF(%q) panicked right after SetTF: %v", wi, w.Path, pv)
 		}
-		if !w.Native && (w.Val.K == KList || w.Val.K == KObject) {
+		if w.Ref != "" || (!w.Native && (w.Val.K == KList || w.Val.K == KObject)) {
 			if got != arg {
 				return errf("write %d: GetTF(%q) does not return the identical container that was written", wi, w.Path)
 			}
@@ -741,6 +891,6 @@ func cmpTH(n *tnode, x any, history map[any]bool, path string) error {
 
 func init() {
 	Register("C11",
-		"trees with sigil-free keys (incl. keys with or ending in a backslash and keys with leading or trailing white space next to their trimmed twins; in one case of five keys and paths are re-encoded to bytes that are not valid UTF-8; in one tree of four one key in five is an unaddressable distractor - empty, or containing a sigil - that every write must leave alone; long lists, chains up to 70 levels with paths of up to 80 segments, drawn construction routes so that element wrappers may be shared between positions) x sequences of 1-5 tree-form writes. SetTF paths are well-formed random walks that follow existing children or deliberately leave them (existing / new key; index < n, = n, n+1..n+4; next sigil matching or not matching the child's kind), so every cell of (container kind) x (next segment . / # / leaf) x (missing, right kind, wrong kind: scalar, nil, other container) occurs; values are scalars, fresh containers or native Go maps/slices. Oracle: a reference writer over a model tree with identities (reuse right-kind intermediates, replace others by a new container of the kind the next segment needs, pad lists with nil): SetTF must not panic, returns the root, GetTF(p) yields v (identical container), and the whole tree equals the model with every reused container identical to before and every created container never seen before. UnsetTF: resolvable => exactly that entry removed (list tail shifts); otherwise tree unchanged whether or not it panics. Non-trivial = a write with >= 2 segments or one that creates/replaces an intermediate or pads a list. Distinct = distinct FNV-64a hash of the case JSON.",
+		"trees with sigil-free keys (incl. keys with or ending in a backslash and keys with leading or trailing white space next to their trimmed twins; in one case of five keys and paths are re-encoded to bytes that are not valid UTF-8; in one tree of four one key in five is an unaddressable distractor - empty, or containing a sigil - that every write must leave alone; long lists, chains up to 70 levels with paths of up to 80 segments, drawn construction routes so that element wrappers may be shared between positions) x sequences of 1-5 tree-form writes. SetTF paths are well-formed random walks that follow existing children or deliberately leave them (existing / new key; index < n, = n, n+1..n+4; next sigil matching or not matching the child's kind), so every cell of (container kind) x (next segment . / # / leaf) x (missing, right kind, wrong kind: scalar, nil, other container) occurs; values are scalars, fresh containers, native Go maps/slices or - one write in six - a container that is already in the tree (moved or linked: the same instance at two places) or a new container holding it, also written over its own slot. Oracle: a reference writer over a model tree with identities (reuse right-kind intermediates, replace others by a new container of the kind the next segment needs, pad lists with nil): SetTF must not panic, returns the root, GetTF(p) yields v (identical container), and the whole tree equals the model with every reused container identical to before and every created container never seen before. UnsetTF: resolvable => exactly that entry removed (list tail shifts); otherwise tree unchanged whether or not it panics. Non-trivial = a write with >= 2 segments or one that creates/replaces an intermediate or pads a list. Distinct = distinct FNV-64a hash of the case JSON.",
 		GenC11, CheckC11)
 }
